@@ -578,6 +578,12 @@ class Gen:
                 for verb in ("scan", "stop", "start", "pause", "resume", "restart", "disable", "enable", "fix"):
                     add(f"node-service-{verb}", node_name=hn, service_name=s)
             app_names = list(h["applications"]) + ["web-browser", "nmap"]
+            if self.p.get("app_lifecycle_cluster") and self.chance(self.p["app_lifecycle_cluster"]):
+                # the whole life cycle of an application that is not there at the start: installed at run time by
+                # node-application-install, then scanned / closed / fixed / executed / removed
+                absent = [x for x in ("database-client", "ransomware-script", "dos-bot", "data-manipulation-bot") if x not in app_names]
+                if absent:
+                    app_names.append(r.choice(absent))
             for ap in dict.fromkeys(app_names):
                 for verb in ("execute", "scan", "close", "fix"):
                     add(f"node-application-{verb}", node_name=hn, application_name=ap)
